@@ -471,7 +471,8 @@ def d_priority(ctx, t):
     """The flow priority only SCALES a match: a declared priority (range-checked to [0, 1]) must
     not turn a matching event into a non-match."""
     fn = find_function(t, "_compute_event_comparison_score")
-    muls = [s for s in ast.walk(fn) if isinstance(s, ast.AugAssign) and isinstance(s.op, ast.Mult) and isinstance(s.value, ast.Name) and s.value.id == "priority"]
+    muls = [s for s in ast.walk(fn) if (isinstance(s, ast.AugAssign) and isinstance(s.op, ast.Mult) and isinstance(s.value, ast.Name) and s.value.id == "priority") or
+            (isinstance(s, ast.Assign) and src(s.targets[0]) == "match_score" and any(isinstance(b, ast.BinOp) and isinstance(b.op, ast.Mult) and "priority" in src(b) for b in ast.walk(s.value)))]
     ctx.floor("C04.d.priority", SM, "priority scaling of the match score", len(muls), 1)
     cfg = CFG(fn)
     finals = [n for n in cfg.nodes if n.kind == "stmt" and isinstance(n.ast, ast.Return) and isinstance(n.ast.value, ast.Name)]
@@ -484,9 +485,10 @@ def d_priority(ctx, t):
                       "every path that returns a computed match score (action events, internal events, StartFlow) passes the priority scaling" if allpaths else
                       "the priority scaling is skipped on some path to `return %s`: for those event kinds a declared flow priority is ignored and the conflict becomes a random tie" % src(finals[0].ast.value),
                       line=par.lineno)
-        ok = isinstance(par, ast.If) and re.sub(r"\s", "", src(par.test)) in ("priority", "priority>0", "priority>0.0", "priorityisnotNoneandpriority>0", "priorityandpriority>0")
+        floored = isinstance(m, ast.Assign) and isinstance(m.value, ast.Call) and src(m.value.func) == "max" and any(_positive_const(a) for a in m.value.args)
+        ok = floored or (isinstance(par, ast.If) and re.sub(r"\s", "", src(par.test)) in ("priority", "priority>0", "priority>0.0", "priorityisnotNoneandpriority>0", "priorityandpriority>0"))
         ctx.check("C04.d.priority", SM, fn.name, src(m), ok,
-                  "the score is multiplied by the priority only when the priority is non-zero (guard `%s`)" % (src(par.test) if isinstance(par, ast.If) else None) if ok else
+                  ("the scaled score keeps a positive floor" if floored else "the score is multiplied by the priority only when the priority is non-zero (guard `%s`)" % (src(par.test) if isinstance(par, ast.If) else None)) if ok else
                   "the score is multiplied by the priority under `%s`: a flow with the allowed priority 0.0 gets score 0 for every event and its match never advances" % (src(par.test) if isinstance(par, ast.If) else "no guard"),
                   line=m.lineno)
 
